@@ -1,6 +1,7 @@
 import OjgVerif.JPMut.LemmasFrame
 import OjgVerif.JPMut.LemmasOne
 import OjgVerif.JPMut.LemmasAll
+import OjgVerif.Gen.JpMutFacts
 /-! # C13 — Path mutations touch exactly the selected locations
 
 The statements are about the models of `Expr.set` / `Expr.modify` / the fragments' `remove` methods
@@ -10,8 +11,15 @@ selected locations are those of the shared path denotation `JPath.eval` (what Ge
 
 * `C13_full dev` — the property at full strength for the model with deviation set `dev`: every
   mutator, every path, all/One, simple and gen data.
-* `C13_full_false` — it is false for the code as it is (`Dev.current`); `witness_*`: one kernel-evaluated
-  witness per deviation, each with the verdict of the model with that deviation off.
+* `C13_full_false` — it is false for the code as it is (`Dev.current`: the pinned inclusive reading of slices,
+  `witness_sliceInclusive`; a location selected twice, `witness_repeated`). `witness_*_before`: one
+  kernel-evaluated witness per repaired deviation (model `Dev.before`), each with the verdict of the model with
+  that deviation off. `current_is_source`: every repaired flag of `Dev.current` is off exactly because the
+  patched source lines are there (facts regenerated from jp/*.go on every run).
+* `C13_current` — the property for the code as it is (`Dev.current`), with the exclusions that the repairs
+  discharge discharged: what is left is `CleanPath` — no union lists a member of the visited value twice, and
+  every slice selects, in the inclusive reading the suite pins, the indexes of the specification on the arrays
+  it meets.
 * `C13_partial`, and behind it `set_eq`, `del_eq`, `modify_eq`, `remove_eq` with their corollaries
   (`set_hit`, `set_frame`, `del_frame`, `del_gone_key`, `del_null_idx`, `modify_hit`, `modify_frame`,
   `remAll_gone_key`, `remArr_shift`, `remArr_length`) — the `_partial` theorems, for ANY deviation set:
@@ -47,7 +55,11 @@ def Holds (op : Op) (one : Bool) (x : List Frag) (d : JV) : Out → Prop
 def C13_full (dev : Dev) : Prop :=
   ∀ (gen one : Bool) (op : Op) (x : List Frag) (d : JV), WF d → Holds op one x d (runModel gen dev one x d op)
 
-/-! ## refutation witnesses: one per deviation of the unchanged code -/
+/-! ## refutation witnesses: one per deviation
+
+`witness_sliceInclusive` and `witness_repeated` are about the code as it is. The `witness_*_before` theorems are the
+record of the eight repaired defects: they speak about `Dev.before`, the model of the code before /repo 18e5d18
+076ef8c a7f7cdd 0eb0265 f263838 99212c8 52aa03a (observed behaviour then, specification, model with the flag off). -/
 
 def ints (l : List Int) : JV := .arr (l.map JV.int)
 def kA : Bytes := [97]
@@ -63,66 +75,66 @@ theorem witness_sliceInclusive :
       = .ok (ints [0, 3, 4, 5]) := ⟨by rfl, by rfl, by rfl⟩
 
 /-- removeStepEnd: `Remove $[4:1:-2]` removes 1 and 3 where Get (and Modify) select 4 and 2 -/
-theorem witness_removeStepEnd :
-    removeM false Dev.current false [.slice (some 4) (some 1) (some (-2))] (ints [0, 1, 2, 3, 4, 5]) = .ok (ints [0, 2, 4, 5]) ∧
+theorem witness_removeStepEnd_before :
+    removeM false Dev.before false [.slice (some 4) (some 1) (some (-2))] (ints [0, 1, 2, 3, 4, 5]) = .ok (ints [0, 2, 4, 5]) ∧
     removeSpec [.slice (some 4) (some 1) (some (-2))] (ints [0, 1, 2, 3, 4, 5]) = ints [0, 1, 3, 5] ∧
-    removeM false { Dev.current with removeStepEnd := false } false [.slice (some 4) (some 1) (some (-2))] (ints [0, 1, 2, 3, 4, 5])
+    removeM false { Dev.before with removeStepEnd := false } false [.slice (some 4) (some 1) (some (-2))] (ints [0, 1, 2, 3, 4, 5])
       = .ok (ints [0, 1, 3, 5]) := ⟨by rfl, by rfl, by rfl⟩
 
 /-- setEmptySlice: `Set $[3:1:5].a` visits element 3 although the range is empty -/
-theorem witness_setEmptySlice :
-    setM false Dev.current false (.val (.int 9)) [.slice (some 3) (some 1) (some 5), .child kA] (.arr [objA 0, objA 1, objA 2, objA 3])
+theorem witness_setEmptySlice_before :
+    setM false Dev.before false (.val (.int 9)) [.slice (some 3) (some 1) (some 5), .child kA] (.arr [objA 0, objA 1, objA 2, objA 3])
       = .ok (.arr [objA 0, objA 1, objA 2, objA 9]) ∧
     setSpec [.slice (some 3) (some 1) (some 5), .child kA] (.int 9) (.arr [objA 0, objA 1, objA 2, objA 3])
       = .arr [objA 0, objA 1, objA 2, objA 3] ∧
-    setM false { Dev.current with setEmptySlice := false } false (.val (.int 9)) [.slice (some 3) (some 1) (some 5), .child kA]
+    setM false { Dev.before with setEmptySlice := false } false (.val (.int 9)) [.slice (some 3) (some 1) (some 5), .child kA]
       (.arr [objA 0, objA 1, objA 2, objA 3]) = .ok (.arr [objA 0, objA 1, objA 2, objA 3]) := ⟨by rfl, by rfl, by rfl⟩
 
 /-- descentSiblings: `Set $[*]..a` descends into the first element only -/
-theorem witness_descentSiblings :
-    setM false Dev.current false (.val (.int 9)) [.wild, .descent, .child kA] (.arr [.arr [objA 1], .arr [objA 1]])
+theorem witness_descentSiblings_before :
+    setM false Dev.before false (.val (.int 9)) [.wild, .descent, .child kA] (.arr [.arr [objA 1], .arr [objA 1]])
       = .ok (.arr [.arr [objA 9], .arr [objA 1]]) ∧
     setSpec [.wild, .descent, .child kA] (.int 9) (.arr [.arr [objA 1], .arr [objA 1]]) = .arr [.arr [objA 9], .arr [objA 9]] ∧
-    setM false { Dev.current with descentSiblings := false } false (.val (.int 9)) [.wild, .descent, .child kA]
+    setM false { Dev.before with descentSiblings := false } false (.val (.int 9)) [.wild, .descent, .child kA]
       (.arr [.arr [objA 1], .arr [objA 1]]) = .ok (.arr [.arr [objA 9], .arr [objA 9]]) := ⟨by rfl, by rfl, by rfl⟩
 
 /-- removeUnionNeg: `Remove $['c',-1]` on `[4,null,4,2]` removes nothing -/
-theorem witness_removeUnionNeg :
-    removeM false Dev.current false [.union [.key [99], .idx (-1)]] (.arr [.int 4, .null, .int 4, .int 2])
+theorem witness_removeUnionNeg_before :
+    removeM false Dev.before false [.union [.key [99], .idx (-1)]] (.arr [.int 4, .null, .int 4, .int 2])
       = .ok (.arr [.int 4, .null, .int 4, .int 2]) ∧
     removeSpec [.union [.key [99], .idx (-1)]] (.arr [.int 4, .null, .int 4, .int 2]) = .arr [.int 4, .null, .int 4] ∧
-    removeM false { Dev.current with removeUnionNeg := false } false [.union [.key [99], .idx (-1)]]
+    removeM false { Dev.before with removeUnionNeg := false } false [.union [.key [99], .idx (-1)]]
       (.arr [.int 4, .null, .int 4, .int 2]) = .ok (.arr [.int 4, .null, .int 4]) := ⟨by rfl, by rfl, by rfl⟩
 
 /-- genUnionOOB: `Set $[5,6]` on the gen array `[1,2]` panics (index out of range); on simple data nothing happens -/
-theorem witness_genUnionOOB :
-    setM true Dev.current false (.val (.int 9)) [.union [.idx 5, .idx 6]] (ints [1, 2]) = .fault (ints [1, 2]) ∧
-    setM false Dev.current false (.val (.int 9)) [.union [.idx 5, .idx 6]] (ints [1, 2]) = .ok (ints [1, 2]) ∧
-    setM true { Dev.current with genUnionOOB := false } false (.val (.int 9)) [.union [.idx 5, .idx 6]] (ints [1, 2])
+theorem witness_genUnionOOB_before :
+    setM true Dev.before false (.val (.int 9)) [.union [.idx 5, .idx 6]] (ints [1, 2]) = .fault (ints [1, 2]) ∧
+    setM false Dev.before false (.val (.int 9)) [.union [.idx 5, .idx 6]] (ints [1, 2]) = .ok (ints [1, 2]) ∧
+    setM true { Dev.before with genUnionOOB := false } false (.val (.int 9)) [.union [.idx 5, .idx 6]] (ints [1, 2])
       = .ok (ints [1, 2]) := ⟨by rfl, by rfl, by rfl⟩
 
 /-- genModifyNil: a modifier that returns null is an error on gen data, stores null on simple data -/
-theorem witness_genModifyNil :
-    modifyM true Dev.current false (fun _ => (.null, true)) [.nth 0] (ints [1, 2]) = .err .notNode (ints [1, 2]) ∧
-    modifyM false Dev.current false (fun _ => (.null, true)) [.nth 0] (ints [1, 2]) = .ok (.arr [.null, .int 2]) ∧
-    modifyM true { Dev.current with genModifyNil := false } false (fun _ => (.null, true)) [.nth 0] (ints [1, 2])
+theorem witness_genModifyNil_before :
+    modifyM true Dev.before false (fun _ => (.null, true)) [.nth 0] (ints [1, 2]) = .err .notNode (ints [1, 2]) ∧
+    modifyM false Dev.before false (fun _ => (.null, true)) [.nth 0] (ints [1, 2]) = .ok (.arr [.null, .int 2]) ∧
+    modifyM true { Dev.before with genModifyNil := false } false (fun _ => (.null, true)) [.nth 0] (ints [1, 2])
       = .ok (.arr [.null, .int 2]) := ⟨by rfl, by rfl, by rfl⟩
 
 /-- filterMapNil: Modify with a filter in last position on a map deletes the member when the modifier returns null -/
-theorem witness_filterMapNil :
-    modifyM false Dev.current false (fun _ => (.null, true)) [.filter fun v => match v with | .int i => decide (1 < i) | _ => false]
+theorem witness_filterMapNil_before :
+    modifyM false Dev.before false (fun _ => (.null, true)) [.filter fun v => match v with | .int i => decide (1 < i) | _ => false]
       (.obj [(kA, .int 1), (kB, .int 2)]) = .ok (.obj [(kA, .int 1)]) ∧
     modifySpec [.filter fun v => match v with | .int i => decide (1 < i) | _ => false] (fun _ => (.null, true))
       (.obj [(kA, .int 1), (kB, .int 2)]) = .obj [(kA, .int 1), (kB, .null)] ∧
-    modifyM false { Dev.current with filterMapNil := false } false (fun _ => (.null, true))
+    modifyM false { Dev.before with filterMapNil := false } false (fun _ => (.null, true))
       [.filter fun v => match v with | .int i => decide (1 < i) | _ => false]
       (.obj [(kA, .int 1), (kB, .int 2)]) = .ok (.obj [(kA, .int 1), (kB, .null)]) := ⟨by rfl, by rfl, by rfl⟩
 
 /-- rootScalar: `Modify $` on the root 5 does not call the modifier -/
-theorem witness_rootScalar :
-    modifyM false Dev.current false inc [] (.int 5) = .ok (.int 5) ∧
+theorem witness_rootScalar_before :
+    modifyM false Dev.before false inc [] (.int 5) = .ok (.int 5) ∧
     modifySpec [] inc (.int 5) = .int 6 ∧
-    modifyM false { Dev.current with rootScalar := false } false inc [] (.int 5) = .ok (.int 6) := ⟨by rfl, by rfl, by rfl⟩
+    modifyM false { Dev.before with rootScalar := false } false inc [] (.int 5) = .ok (.int 6) := ⟨by rfl, by rfl, by rfl⟩
 
 /-- a location that is selected twice (a union that lists it twice): the modifier is applied twice. This is
 not behind a deviation flag (the traversal works once per occurrence, as Get lists the element twice); it is
@@ -388,6 +400,171 @@ theorem C13_partial (dev : Dev) (op : Op) (x : List Frag) (d d' : JV) (hnd : NoD
     simp only [runModel, remove_eq dev sx f d hnd hw h1 h2] at h
     injection h with h
     exact h.symm
+
+/-! ## the code as it is now -/
+
+/-- the eight repaired deviations are off in `Dev.current` exactly because the patched source lines are there: the
+facts are regenerated from jp/slice.go, set.go, modify.go, union.go on every run (tools/extract/jpmut.go); undoing a
+repair flips a fact and breaks this theorem -/
+theorem current_is_source :
+    Dev.current =
+      { sliceInclusive := true
+        removeStepEnd := !Gen.JpMut.inStepFromStart
+        setEmptySlice := !Gen.JpMut.setEmptySliceGuarded
+        descentSiblings := !(Gen.JpMut.setDescentClears && Gen.JpMut.modifyDescentClears)
+        removeUnionNeg := !Gen.JpMut.unionRemoveFromEnd
+        genUnionOOB := !Gen.JpMut.genUnionGuarded
+        genModifyNil := !Gen.JpMut.modifyNodeNullSafe
+        filterMapNil := !Gen.JpMut.modifyReflectNullSafe
+        rootScalar := !Gen.JpMut.modifyRootPushed } := by decide
+
+/-- the exclusions that are left for the code as it is: a union that lists a member of the value twice; a slice whose
+inclusive reading (the pinned one: end inclusive, absent end = last element) selects other indexes than the
+specification on the array; recursive descent -/
+def CleanAt (f : Frag) (e : JV) : Prop :=
+  match f with
+  | .union ms => (unionLocs ms e).Nodup
+  | .slice s e' t => ∀ xs, e = .arr xs → modIdx Dev.current xs.length s e' t = sliceIdx xs.length s e' t
+  | .descent => False
+  | _ => True
+
+/-- every fragment of the path is clean on the values it is applied to -/
+def CleanPath : List Frag → JV → Prop
+  | [], _ => True
+  | f :: r, d => CleanAt f d ∧ ∀ m ∈ sel f d, CleanPath r m.2
+
+/-- since a7f7cdd set.go visits in an inner slice what modify.go visits -/
+theorem setIdx_current (n : Nat) (s e t : Option Int) : setIdx Dev.current n s e t = modIdx Dev.current n s e t := by
+  simp [setIdx, modIdx, Dev.current]
+
+theorem cleanAt_good (f : Frag) (e : JV) (h : CleanAt f e) : GoodAt Dev.current f e := by
+  cases f with
+  | filter p => exact Or.inl rfl
+  | union ms => exact h
+  | slice s e' t => exact h
+  | descent => exact h
+  | child k => trivial
+  | nth i => trivial
+  | wild => trivial
+
+theorem cleanAt_goodS (f : Frag) (e : JV) (h : CleanAt f e) : GoodAtS Dev.current f e := by
+  cases f with
+  | slice s e' t => intro xs hx; rw [setIdx_current]; exact h xs hx
+  | union ms => exact h
+  | descent => exact h
+  | filter p => trivial
+  | child k => trivial
+  | nth i => trivial
+  | wild => trivial
+
+theorem cleanPath_good : ∀ (x : List Frag) (d : JV), CleanPath x d → GoodPath Dev.current x d
+  | [], _, _ => trivial
+  | f :: r, d, h => ⟨cleanAt_good f d h.1, fun m hm => cleanPath_good r m.2 (h.2 m hm)⟩
+
+theorem cleanPath_goodS : ∀ (x : List Frag) (d : JV), CleanPath x d → GoodPathS Dev.current x d
+  | [], _, _ => trivial
+  | f :: r, d, h => ⟨cleanAt_goodS f d h.1, fun m hm => cleanPath_goodS r m.2 (h.2 m hm)⟩
+
+/-- what is left to ask of the last fragment of a Remove: a slice removes — aligned from the start since 18e5d18, end
+inclusive — the positions the specification selects -/
+def RemClean (f : Frag) (c : JV) : Prop :=
+  match f with
+  | .slice s e t => ∀ xs, c = .arr xs → ∀ i, i < xs.length → remSel Dev.current xs.length s e t i = (sliceIdx xs.length s e t).contains i
+  | .descent => False
+  | _ => True
+
+theorem remClean_good (f : Frag) (c : JV) (h : RemClean f c) : RemGood Dev.current f c := by
+  cases f with
+  | union ms => exact Or.inl rfl
+  | slice s e t => exact h
+  | descent => exact h
+  | child k => trivial
+  | nth i => trivial
+  | wild => trivial
+  | filter p => trivial
+
+def RemCleanPath (f : Frag) : List Frag → JV → Prop
+  | [], d => RemClean f d
+  | h :: r, d => ∀ m ∈ sel h d, RemCleanPath f r m.2
+
+theorem remCleanPath_good (f : Frag) : ∀ (sx : List Frag) (d : JV), RemCleanPath f sx d → RemPath Dev.current f sx d
+  | [], d, h => remClean_good f d h
+  | _ :: r, _, h => fun m hm => remCleanPath_good f r m.2 (h m hm)
+
+/-- the predicates excluded for the mutation `op` on `(x, d)`, the code as it is -/
+def Clean (x : List Frag) (d : JV) : Op → Prop
+  | .set _ => CleanPath x d
+  | .del => CleanPath x d
+  | .mod _ => CleanPath x d
+  | .rem => ∃ sx f, x = sx ++ [f] ∧ CleanPath sx d ∧ RemCleanPath f sx d
+
+/-- C13 for the code as it is now (all matches, simple data, paths without recursive descent): a mutator that reports
+no error leaves exactly the tree the specification names, outside `Clean` — no union lists a member of the visited
+value twice, every slice selects in the pinned inclusive reading what the specification selects. The filter, root and
+from-the-end exclusions of `C13_partial` are discharged by the repairs. -/
+theorem C13_current (op : Op) (x : List Frag) (d d' : JV) (hnd : NoDescent x) (hw : WF d) (hc : Clean x d op)
+    (h : runModel false Dev.current false x d op = .ok d') : d' = expected x d op := by
+  apply C13_partial Dev.current op x d d' hnd hw ?_ h
+  cases op with
+  | set v => exact cleanPath_goodS x d hc
+  | del => exact cleanPath_goodS x d hc
+  | mod m => exact ⟨cleanPath_good x d hc, fun h => by simp [Dev.current] at h⟩
+  | rem =>
+    obtain ⟨sx, f, hx, h1, h2⟩ := hc
+    exact ⟨sx, f, hx, cleanPath_good sx d h1, remCleanPath_good f sx d h2⟩
+
+/-- the corollaries for the code as it is: Set -/
+theorem set_hit_current (v : JV) (x : List Frag) (d d' : JV) (hnd : NoDescent x) (hw : WF d) (hc : CleanPath x d)
+    (h : setM false Dev.current false (.val v) x d = .ok d') : ∀ p ∈ locs x d, valAt p d' = some v :=
+  set_hit Dev.current v x d d' hnd hw (cleanPath_goodS x d hc) h
+
+theorem set_frame_current (v : JV) (x : List Frag) (d d' : JV) (hnd : NoDescent x) (hw : WF d) (hc : CleanPath x d)
+    (h : setM false Dev.current false (.val v) x d = .ok d') (q : Path) (c : JV) (hv : valAt q d = some c)
+    (h1 : touched (locs x d) q = false) (h2 : touched ((creates v x d).map (·.1)) q = false) : valAt q d' = some c :=
+  set_frame Dev.current v x d d' hnd hw (cleanPath_goodS x d hc) h q c hv h1 h2
+
+theorem del_frame_current (x : List Frag) (d d' : JV) (hnd : NoDescent x) (hw : WF d) (hc : CleanPath x d)
+    (h : setM false Dev.current false .del x d = .ok d') : Frame (locs x d) d d' :=
+  del_frame Dev.current x d d' hnd hw (cleanPath_goodS x d hc) h
+
+/-- Modify, the code as it is: no error is possible, hit and frame hold -/
+theorem modify_current (m : Modifier) (x : List Frag) (d : JV) (hnd : NoDescent x) (hw : WF d) (hc : CleanPath x d) :
+    modifyM false Dev.current false m x d = .ok (modifySpec x m d) :=
+  modify_eq Dev.current m x d hnd hw (cleanPath_good x d hc) (fun h => by simp [Dev.current] at h)
+
+theorem modify_hit_current (m : Modifier) (x : List Frag) (d : JV) (hnd : NoDescent x) (hw : WF d) (hc : CleanPath x d) :
+    ∀ p ∈ locs x d, valAt p (modifySpec x m d) = (valAt p d).map m.eff := by
+  intro p hp
+  exact updAll_hit m.eff p (locs x d) d hp (alone_of_noDescent x hnd d hw p hp)
+
+/-- Remove, the code as it is: no error is possible -/
+theorem remove_current (sx : List Frag) (f : Frag) (d : JV) (hnd : NoDescent (sx ++ [f])) (hw : WF d)
+    (h1 : CleanPath sx d) (h2 : RemCleanPath f sx d) :
+    removeM false Dev.current false (sx ++ [f]) d = .ok (removeSpec (sx ++ [f]) d) :=
+  remove_eq Dev.current sx f d hnd hw (cleanPath_good sx d h1) (remCleanPath_good f sx d h2)
+
+/-- since f263838 / 99212c8 gen data behaves as simple data, for every path -/
+theorem gen_current (one : Bool) (op : Op) (x : List Frag) (d : JV) :
+    runModel true Dev.current one x d op = runModel false Dev.current one x d op := by
+  cases op with
+  | set v => exact setM_gen Dev.current one _ rfl x d
+  | del => exact setM_gen Dev.current one _ rfl x d
+  | mod m => exact modifyM_gen Dev.current one m rfl x d
+  | rem => exact removeM_gen Dev.current one rfl x d
+
+/-- since f263838 no entry point ends in a run-time fault, on simple and on gen data, for every path -/
+theorem reported_current (gen one : Bool) (op : Op) (x : List Frag) (d : JV) : (runModel gen Dev.current one x d op).Reported := by
+  cases op with
+  | set v => exact setM_reported gen Dev.current one _ x d (by simp [Dev.current])
+  | del => exact setM_reported gen Dev.current one _ x d (by simp [Dev.current])
+  | mod m => exact modifyM_reported gen Dev.current one m x d
+  | rem => exact removeM_reported gen Dev.current one x d
+
+/-- `$[*].a` on `[{"a":1},{"b":2}]` and `$[0:2]` on `[1,2,3]` are clean; `$[0:1]` on `[1,2,3]` is not (inclusive: two
+elements, exclusive: one) -/
+example : CleanPath [.wild, .child kA] (.arr [objA 1, .obj [(kB, .int 2)]]) := ⟨trivial, fun _ _ => ⟨trivial, fun _ _ => trivial⟩⟩
+
+example : modIdx Dev.current 3 (some 0) (some 1) none = [0, 1] ∧ sliceIdx 3 (some 0) (some 1) none = [0] := ⟨by rfl, by rfl⟩
 
 /-! ## the One forms change at most one location -/
 
